@@ -107,6 +107,11 @@ class Runner(object):
     def close(self):
         self.session.close()
 
+    def mode_key(self):
+        """What `Display.screen()` compares to decide between a full mode reset and a mere page change: the video
+        mode (modes are equal when their names are) and the colorswitch."""
+        return (self.display.mode.name, bool(self.display.colorswitch))
+
     def geometry(self):
         """(text mode, W, H, pages, attributes, sprite width factor) of the implementation's current video mode."""
         m = self.display.mode
@@ -167,6 +172,7 @@ class Runner(object):
             self._tbefore = self.text_snapshot()
         self._err = None
         self._cur = k
+        self._key_before = self.mode_key()
 
     def on_trap(self, err, line):
         self._err = err
@@ -179,7 +185,8 @@ class Runner(object):
             self.shadow = None
         else:
             changed = self.sync(record=True)
-        res = {'err': self._err, 'changed': changed, 'geom': self.geometry(), 'apagenum': self.display.apagenum}
+        res = {'err': self._err, 'changed': changed, 'geom': self.geometry(), 'apagenum': self.display.apagenum,
+               'key_before': self._key_before, 'key_after': self.mode_key()}
         if self.text:
             res['text_same'] = (self.text_snapshot() == self._tbefore)
         gv = self.gfx.graph_view
@@ -431,8 +438,9 @@ def judge(ctx, r, e, res, where):
             executed = (tuple(res['rect']) == (min(a, c), min(b, d), max(a, c), max(b, d))
                         and bool(res['abs']) == bool(e.get('abs'))
                         and (tuple(res['rect']) != tuple(r.rect) or bool(res['abs']) != bool(r.absolute) or bool(changed)))
-        elif kind in ('page', 'mode') and e.get('apage') is not None:
-            executed = res.get('apagenum') == e['apage'] != r.apage
+        elif kind in ('page', 'mode'):
+            executed = (res.get('key_before') != res.get('key_after')
+                        or (e.get('apage') is not None and res.get('apagenum') == e['apage'] != r.apage))
         elif kind == 'pcopy':
             executed = bool(changed)
         if executed:
@@ -452,41 +460,43 @@ def judge(ctx, r, e, res, where):
                      'statement failed with error %d but the active page is %r afterwards, it was %r'
                      % (err, res['apagenum'], r.apage))
             r.apage = res['apagenum']
-    if kind == 'mode':
-        # SCREEN m[,,a[,v]]: on success a new mode with the viewport and window reset; the active page is the one
-        # given, else the one that was active (PCjr: page 0 if the new mode has too few pages)
+    if kind in ('mode', 'page'):
+        # Any SCREEN statement, judged by what Display.screen() does.  A statement that raised an error changed
+        # nothing (checked above).  A successful one is a full mode reset - new erased pages, viewport and window
+        # unset - exactly when the video mode or the colorswitch it asks for differs from the current one (an omitted
+        # colorswitch counts as 0; on Olivetti/Hercules many mode numbers name the same mode); otherwise it only
+        # selects pages: viewport, window and all pixels stay.  The active page is the one given, else the one
+        # that was active (PCjr: page 0 if the new mode has too few pages).
         if err is None:
-            same = (e['mode'] == r.cur_mode)
-            r.cur_mode = e['mode']
+            reset = res.get('key_before') != res.get('key_after')
+            if kind == 'mode':
+                r.cur_mode = e['mode']
             r.set_geometry(res['geom'])
             if e.get('apage') is not None:
                 r.apage = e['apage']
             elif r.apage >= r.num_pages:
                 r.apage = 0
-            if same and 'rect' in res:
-                # SCREEN with the current mode number may or may not reinitialise the mode (colorswitch default);
-                # either way nothing is drawn: take the viewport as reported
-                r.rect, r.absolute = tuple(res['rect']), bool(res['abs'])
-            else:
+            if reset:
                 r.rect, r.absolute, r.window = (0, 0, r.W - 1, r.H - 1), False, None
-                if 'rect' in res and tuple(res['rect']) != tuple(r.rect):
-                    ctx.fail('viewport-state:SCREEN', case, 'viewport is %r after the mode switch, expected %r'
-                             % (res['rect'], r.rect))
+                ctx.count('screen:mode-reset')
+            else:
+                ctx.count('screen:pages-only')
+                if changed:
+                    ctx.fail('page-switch-changed-pixels', case,
+                             'SCREEN without a change of mode or colorswitch changed pixels on pages %s' % sorted(changed))
+            if 'rect' in res and (tuple(res['rect']) != tuple(r.rect) or bool(res['abs']) != bool(r.absolute)):
+                ctx.fail('viewport-state:SCREEN', case, 'viewport is %r abs=%r after the SCREEN statement (%s), expected %r abs=%r'
+                         % (res['rect'], res['abs'], 'mode reset' if reset else 'page selection only', r.rect, r.absolute))
+                r.rect, r.absolute = tuple(res['rect']), bool(res['abs'])
+            if res.get('apagenum') is not None and res['apagenum'] != r.apage:
+                ctx.fail('active-page-state', case, 'active page is %r after the statement, expected %r'
+                         % (res['apagenum'], r.apage))
+                r.apage = res['apagenum']
         return
     if kind == 'pcopy':
         # PCOPY legitimately changes the destination page; a rejected one changes nothing
         if err is not None and changed:
             ctx.fail('failed-pcopy-changed-pixels', case, 'rejected PCOPY changed pixels on pages %s' % sorted(changed))
-        return
-    if kind == 'page':
-        if err is None:
-            r.apage = e['apage']
-        if changed:
-            ctx.fail('page-switch-changed-pixels', case, 'SCREEN ,,a,v changed pixels on pages %s' % sorted(changed))
-        if res.get('apagenum') is not None and res['apagenum'] != r.apage:
-            ctx.fail('active-page-state', case, 'active page is %r after the statement, expected %r'
-                     % (res['apagenum'], r.apage))
-            r.apage = res['apagenum']
         return
     if r.text:
         if kind == 'gfx' or kind == 'view':
@@ -1013,6 +1023,8 @@ def sprite_part(ctx, r, full):
         measure.append({'text': 'PUT (%d,%d),%s,PSET' % (W // 4, H // 4, name), 'kind': 'gfx', 'prep': True})
     where = {'video': r.video, 'mode': r.mode, 'part': 'sprite', 'full': full}
     results = r.run(measure, setup=sprite_setup(r, sizes))
+    # the prologue issued VIEW: WINDOW
+    r.rect, r.absolute, r.window = (0, 0, W - 1, H - 1), False, None
     real = []
     for k, (e, res) in enumerate(zip(measure, results)):
         judge(ctx, r, e, res, dict(where, index=k, stage='measure'))
@@ -1073,6 +1085,7 @@ def sprite_part(ctx, r, full):
         puts.sort(key=lambda e: 0 if e['verb'] in ('PSET', 'PRESET') else 1)
         entries += puts
         results = r.run(entries, setup=sprite_setup(r, sizes))
+        r.rect, r.absolute, r.window = (0, 0, W - 1, H - 1), False, None      # the prologue issued VIEW: WINDOW
         cases, outs, lines = [], [], []
         for k, (e, res) in enumerate(zip(entries, results)):
             before = model_prefix(r)
